@@ -16,6 +16,7 @@ fn kinds() -> Vec<Term> {
         tag("args", vec![]),
         tag("opt", vec![ts("é"), ts("{")]),
         tag("opt", vec![ts("z"), ts("")]),
+        tag("opt", vec![ts("args"), ts("")]),
         tag("empty", vec![]),
         tag("blank", vec![]),
         tag("long", vec![]),
@@ -75,7 +76,7 @@ pub fn gen(tier: &str, seed: u64) -> Gen {
             n += 1;
         }
     }
-    (cases, vec![(format!("all parameter lists of length<={} over 11 specifier kinds x call arities 0..n+2", maxlen), n, thorough)])
+    (cases, vec![(format!("all parameter lists of length<={} over 12 specifier kinds x call arities 0..n+2", maxlen), n, thorough)])
 }
 
 pub fn run(case: &Term) -> Term {
